@@ -622,6 +622,55 @@ def r14_expansion_adds(idx, r):
                   msg=f"`{norm(c)[:90]}` sets the isotope to the element's share alone: an isotope the component already held explicitly loses its own atoms (iron density 0.0803 -> 0.0703 for FE plus FE56 = 0.01)")
 
 
+def r15_memo_and_mass_vector(idx, r):
+    """(a) A method that answers from the composite cache stores under a name exactly what it returns on the miss path: if the stored value
+    and the returned one differ (e.g. the symmetry reduction applied after the store), the second caller gets another number than the first.
+    (b) `ArmiObject.addMasses` skips an entry only when it is zero: a sign test drops the negative entries of a mass vector (a removal).
+    (c) `Component.adjustMassEnrichment` renormalises over every nuclide of the enriched element (element.nuclides), not only the natural
+    ones: with U236 or U233 present the requested enrichment would not read back."""
+    n = 0
+    for m in idx.modules.values():
+        if not m.name.startswith("armi.reactor") or ".tests" in m.name:
+            continue
+        for f in m.all_funcs():
+            sets = [c for c in iter_calls(f.node) if dotted(c.func) == "self._setCache" and len(c.args) == 2]
+            gets = [c for c in iter_calls(f.node) if dotted(c.func) == "self._getCached"]
+            if not sets or not gets or f.name in ("_setCache", "_getCached"):
+                continue
+            for c in sets:
+                n += 1
+                stored = norm(c.args[1])
+                # the first return that follows the store in the same block (or the function's last return)
+                rets = [x for x in walk_local(f.node) if isinstance(x, ast.Return) and x.value is not None and x.lineno > c.lineno]
+                if not rets:
+                    r.undecided(f"{f.qualname}:cache-stores-what-it-returns", f, "no return after the cache store; not decided", node=c)
+                    continue
+                again = isinstance(rets[0].value, ast.Call) and dotted(rets[0].value.func) == "self._getCached" and rets[0].value.args and norm(rets[0].value.args[0]) == norm(c.args[0])
+                r.require(norm(rets[0].value) == stored or again, f"{f.qualname}:cache-stores-what-it-returns", f, node=rets[0],
+                          msg=f"the miss path stores `{stored}` but returns `{norm(rets[0].value)[:60]}`: the next caller is answered from the cache with a different value than this one")
+    if n < 1:
+        raise AnchorMissing("a method that fills the composite cache")
+    f = idx.method(AO, "addMasses")
+    calls = [c for c in iter_calls(f.node) if dotted(c.func) == "self.addMass"]
+    if len(calls) != 1:
+        raise AnchorMissing("addMasses: the addMass call")
+    bad = [norm(t) for t, _p in path_conditions(f.node, calls[0]) if any(isinstance(o, (ast.Lt, ast.Gt, ast.LtE, ast.GtE)) for x in ast.walk(t) if isinstance(x, ast.Compare) for o in x.ops)]
+    r.require(not bad, "addMasses:entries-skipped-only-when-zero", f, node=calls[0],
+              msg=f"an entry of the mass vector is applied only under {bad}: negative entries (mass to take out) are silently dropped, so add(v) followed by add(-v) does not give the mass back")
+    g = idx.method(COMP, "adjustMassEnrichment")
+    base = [s_ for s_ in iter_stores(g.node) if s_.kind == "assign" and isinstance(s_.node, ast.Name) and s_.node.id == "baselineNucNames" and s_.value is not None]
+    if len(base) != 1:
+        raise AnchorMissing("adjustMassEnrichment: baselineNucNames")
+    txt = norm(base[0].value)
+    r.require(".element.nuclides" in txt and "getNaturalIsotopics" not in txt, "adjustMassEnrichment:baseline-is-every-nuclide-of-the-element", g, node=base[0].stmt,
+              msg=f"the baseline `{txt[:70]}` is not every nuclide of the enriched element: isotopes outside it (U236, U233) keep their mass while the total is redistributed, so the requested enrichment does not read back")
+
+
+def r16_pairing(idx, r):
+    from ..pairing import pairing_rule
+    pairing_rule(idx, r, ["armi.reactor.composites", "armi.reactor.blocks", "armi.reactor.components", "armi.utils.densityTools"], 100)
+
+
 def run(idx, chk):
     chk.explanation = (
         "C02: 24 conversion/accounting functions are typed in the free abelian group of physical units (cm, g, mol, barn, atom) plus a role generator "
@@ -657,3 +706,7 @@ def run(idx, chk):
                  necessary="block volume = sum of the volumes of the components it holds now")
     chk.run_rule("R02.14", "expanding an element adds its share to the isotope densities already present", lambda r: r14_expansion_adds(idx, r), floor=1,
                  necessary="the atoms of an element are conserved when it is expanded into isotopes")
+    chk.run_rule("R02.15", "a cached value is the value returned; a mass vector entry is skipped only when zero; enrichment renormalises over every nuclide of the element", lambda r: r15_memo_and_mass_vector(idx, r), floor=3,
+                 necessary="mass = density x volume at every level; adding then removing a mass vector restores the masses; an enrichment that was set reads back")
+    chk.run_rule("R02.16", "arguments stand at the parameter they are named after; sibling calls forward the same pass-through parameters", lambda r: r16_pairing(idx, r), floor=1,
+                 necessary="the accessors compute with the options the caller gave")
